@@ -4,6 +4,7 @@ from vlib import xhex
 from props.codec_common import *
 
 THEOREMS = ["C03_accepts_conformant"]
+RELEASE = True          # debug and release builds of the harness (debug_assert!, overflow checks, cfg(debug_assertions))
 RULE = ("DECRT x<bytes>: bytes from the Python RFC 9171 reference encoder for bundles of the C01 domain (CRCs computed by the "
         "peer); the implementation decodes, CRC-checks and re-encodes; non-trivial = distinct input with an extension block or a CRC")
 TRUSTED_BASE = CODEC_TRUSTED
@@ -23,7 +24,7 @@ def corpus():
 
 
 def cases(rng, tier):
-    return [_line(b) for b in bundle_cases(rng, 1500 if tier == "quick" else 150000)]
+    return [_line(b) for b in bundle_cases(rng, 1500 if tier == "quick" else 150000)] + pair_lines(rng, 300 if tier == "quick" else 30000, _line)
 
 
 def oracle(line, out, mode):
